@@ -225,6 +225,22 @@ impl<'a> Gen<'a> {
                 }
             }
         }
+        // white space in the Unicode sense at the edges of the content (free-text languages only)
+        if style == Style::Rich
+            && !keys.is_empty()
+            && [".md", ".markdown", ".html"].iter().any(|e| path.ends_with(e))
+            && self.rng.chance(1, 4)
+        {
+            let ws = *self.rng.pick(&["\u{a0}", "\u{3000}", "\u{2003}", "\u{b}", "\u{a0}\u{3000}"]);
+            if self.rng.chance(1, 2) {
+                keys[0] = format!("{ws}{}", keys[0]);
+            } else {
+                let last = keys.len() - 1;
+                if !keys[last].ends_with('\r') {
+                    keys[last] = format!("{}{ws}", keys[last]);
+                }
+            }
+        }
         if clean && style != Style::Rich {
             keys.sort();
             keys.dedup();
